@@ -379,9 +379,9 @@ Proof.
 Qed.
 
 Lemma scope_example :
-  let suba := Chart "suba" "1.0.0" [("global", VMap [("g", VNum 1)]); ("k", VNum 1)] None [] None [] false in
-  let subb := Chart "subb" "1.0.0" [("k", VNum 2)] None [] None [] false in
-  let top := Chart "top" "1.0.0" [] None [suba; subb] None [] false in
+  let suba := Chart "suba" "1.0.0" [("global", VMap [("g", VNum 1)]); ("k", VNum 1)] None [] None [] [] in
+  let subb := Chart "subb" "1.0.0" [("k", VNum 2)] None [] None [] [] in
+  let top := Chart "top" "1.0.0" [] None [suba; subb] None [] [] in
   let v := [("global", VMap [("g", VNum 7)]); ("suba", VMap [("zz", VNum 1)])] in
   let v' := [("global", VMap [("g", VNum 7)]); ("suba", VMap [("zz", VNum 2); ("global", VMap [("h", VNum 3)])])] in
   NoDup (map cname (cdeps top)) /\ ~ In global_key (map cname (cdeps top)) /\
